@@ -197,8 +197,8 @@ pub fn ser_instr(i: &Instruction) -> String
 		Instruction::Lsl{dst, value, shift} => format!("lsl {} {} {}", r(dst), r(value), ir(shift)),
 		Instruction::Lsr{dst, value, shift} => format!("lsr {} {} {}", r(dst), r(value), ir(shift)),
 		Instruction::Mov{flags, dst, src} => format!("mov {} {} {}", b(flags), r(dst), ir(src)),
-		Instruction::Mrs{dst, src} => format!("mrs {} {}", r(dst), u8::from(*src)),
-		Instruction::Msr{dst, src} => format!("msr {} {}", u8::from(*dst), r(src)),
+		Instruction::Mrs{dst, src} => format!("mrs {} {}", r(dst), sysm_of(*src)),
+		Instruction::Msr{dst, src} => format!("msr {} {}", sysm_of(*dst), r(src)),
 		Instruction::Mul{dst, rhs} => format!("mul {} {}", r(dst), r(rhs)),
 		Instruction::Mvn{dst, value} => format!("mvn {} {}", r(dst), r(value)),
 		Instruction::Nop => "nop".to_owned(),
@@ -250,7 +250,7 @@ pub fn de_instr(s: &str) -> Option<Instruction>
 		}
 	};
 	let set = |i: usize| -> Option<RegisterSet> {Some(RegisterSet::of(u16::try_from(n(i)?).ok()?))};
-	let sys = |i: usize| -> Option<SystemReg> {SystemReg::try_from(u8::try_from(n(i)?).ok()?).ok()};
+	let sys = |i: usize| -> Option<SystemReg> {sysreg_of(u8::try_from(n(i)?).ok()?)};
 	Some(match w[0]
 	{
 		"adc" => Instruction::Adc{dst: r(1)?, rhs: r(2)?},
